@@ -1077,6 +1077,26 @@ class LiveRun:
             if self.bdq.fill(ev.get("bet", 0), ev.get("size", 1.0)):
                 self.res.faults["betdaq.fill"] += 1
             return
+        if ev["type"] == "sibling_bet":
+            # a bet placed by another instance of the same strategy (same reference hash, unknown order id): adopted
+            m = self.scenario["markets"][ev.get("market", 0) % len(self.scenario["markets"])]
+            if self.scenario.get("betdaq") or not self.agents:
+                return
+            a = self.agents[ev.get("strategy", 0) % len(self.agents)]
+            self.n_sibling = getattr(self, "n_sibling", 0) + 1
+            sel = m["runners"][ev.get("runner", 0) % len(m["runners"])]
+            hc = (m.get("hc") or {}).get(str(sel), 0)
+            b = self.exchange._new_bet(
+                m["id"],
+                {"selectionId": sel, "side": ev.get("side", "BACK"), "orderType": "LIMIT", "limitOrder": {"size": 2.0, "price": 980.0 if ev.get("side", "BACK") == "BACK" else 1.02, "persistenceType": "LAPSE"}, "handicap": hc, "customerOrderRef": "%s-1399%015d" % (a.name_hash, self.n_sibling)},
+                {"customerStrategyRef": "simhost"},
+            )
+            self.exchange.emit([b])
+            self.res.faults["exchange.sibling_bet"] += 1
+            mk = self.fw.markets.markets.get(m["id"])
+            if mk is not None and mk.closed:
+                self.res.faults["exchange.sibling_bet.in_closed_market"] += 1
+            return
         ids = self.exchange.order
         if not ids:
             return
